@@ -31,7 +31,7 @@ func (m mergeRunner) Cases(tier string) int {
 }
 
 func (m mergeRunner) Rule() string {
-	return "lists of 2-4 services drawn from one table of definitions of every kind (object field subsets, differing interface sets and descriptions: compatible by construction), a third of the cases with query fields of the gateway's own (WithQueryFields: the same names with differing types and arguments from case to case, so that gateways built one after the other in one process differ in them); each third case with one single-point difference from a catalogue of 43 (kind, field type / nullability / list depth, argument set / type / scalar, list and object defaults, enum values, union members, interface and input fields, directive executable locations and arguments, applied directives incl. repeatable multisets; plus compatible variations) applied to one service; for every order of the services (all permutations up to 4 services, each twice; then once more with two of the services registered under one URL): gateway.New outcome in {ok, error, panic} and, when ok, the canonical dump of the merged schema captured through WithPlanner (kinds, fields with full signatures, interfaces, possible types, implements, directive definitions) are compared with the Lean merge model and with each other; the printed merged schema must load again; the routing table must equal the Lean routing model; non-trivial = at least one name defined by two services; distinct = distinct service list"
+	return "lists of 2-4 services drawn from one table of definitions of every kind (object field subsets, differing interface sets and descriptions: compatible by construction), a third of the cases with query fields of the gateway's own (WithQueryFields: the same names with differing types and arguments from case to case, so that gateways built one after the other in one process differ in them); each third case with one single-point difference from a catalogue of 43 (kind, field type / nullability / list depth, argument set / type / scalar, list and object defaults, enum values, union members, interface and input fields, directive executable locations and arguments, applied directives incl. repeatable multisets; plus compatible variations) applied to one service; for every order of the services (all permutations up to 4 services, each twice; then once more with two of the services registered under one URL): gateway.New outcome in {ok, error, panic} and, when ok, the canonical dump of the merged schema captured through WithPlanner (kinds, fields with full signatures, interfaces, possible types, implements, directive definitions) are compared with the Lean merge model and with each other; the printed merged schema must load again; the routing table must equal the Lean routing model; non-trivial = at least one name defined by two services; distinct = distinct service list; every other case also from schemas REBUILT FROM INTROSPECTION (each service's schema obtained with graphql.IntrospectAPI from a gateway over its SDL: no source positions, no applied directives), in an order and its reverse, the model asked about exactly those schema objects; containment compares field and argument types as written"
 }
 
 var mergeCorpus = []MergeCase{
